@@ -185,13 +185,28 @@ func (x *XmlNode) Find(start int, m meta.Definition) int {
 
 func (x *XmlNode) Choose(sel *node.Selection, choice *meta.Choice) (*meta.ChoiceCase, error) {
 	for _, c := range choice.Cases() {
-		for _, m := range c.DataDefinitions() {
-			if x.Find(0, m) >= 0 {
-				return c, nil
-			}
+		if x.caseHasData(c) {
+			return c, nil
 		}
 	}
 	return nil, nil
+}
+
+// caseHasData is true if an element for any definition of a case, including definitions
+// in the cases of nested choices, is present
+func (x *XmlNode) caseHasData(c *meta.ChoiceCase) bool {
+	for _, m := range c.DataDefinitions() {
+		if nested, isChoice := m.(*meta.Choice); isChoice {
+			for _, nestedCase := range nested.Cases() {
+				if x.caseHasData(nestedCase) {
+					return true
+				}
+			}
+		} else if x.Find(0, m) >= 0 {
+			return true
+		}
+	}
+	return false
 }
 
 // Stubs non-reader funcs
